@@ -1309,6 +1309,8 @@ class VCGen:
             S = Ty.S(t)
             s.safe(st, 'len-None', Not(S.isnone(v)), e.lineno)
             return L_len(S.val(v), t.a[0]), INT
+        if t.k == 'odict':          # number of keys of an ordered dictionary
+            return L_len(Ty.S(t).keys(v), LIST(STR)), INT
         if t.k not in ('list', 'lref'):
             raise Unsupported(f'len of {t}')
         lv, lt = s.deref(v, t, st)
@@ -1783,6 +1785,22 @@ class VCGen:
                 for k, el in enumerate(tg.elts):
                     s.assign(el, tup_get(v, t, k), t.a[k], st, line)
                 return
+            if t == PYVAL and len(tg.elts) == 2:
+                # a, b = v for a dynamically typed v: raises unless v is a sequence of exactly two elements (claimed here only for tuples,
+                # which is what the validation code has established when it unpacks)
+                P = s.pv()
+                s.safe(st, 'typed:unpack-a-2-tuple', And(P.is_pT(v), P.tlen(v) == 2), line)
+                s.assign(tg.elts[0], P.t0(v), PYVAL, st, line)
+                s.assign(tg.elts[1], P.t1(v), PYVAL, st, line)
+                return
+            if t.k == 'lref':
+                v, t = s.deref(v, t, st)
+            if t.k == 'list' and v is not None:
+                # a, b, c = xs for a list value: ValueError unless it has exactly that many elements
+                s.safe(st, 'unpack-length', L_len(v, t) == len(tg.elts), line)
+                for k, el in enumerate(tg.elts):
+                    s.assign(el, L_arr(v, t)[k], t.a[0], st, line)
+                return
             raise Unsupported(f'unpack {t}')
         if isinstance(tg, ast.Attribute):
             o, ot = s.ev(tg.value, st)
@@ -1864,14 +1882,32 @@ class VCGen:
 
     def is_dropped_call(s, c):
         """logging.* calls are dropped (DESIGN 2.1) after a purity scan of their arguments"""
+        loggers = s.module_loggers()
         if isinstance(c, ast.Call) and isinstance(c.func, ast.Attribute) and isinstance(c.func.value, ast.Name) \
-                and c.func.value.id == 'logging' and c.func.attr in ('info', 'debug', 'error', 'warning'):
+                and (c.func.value.id == 'logging' or c.func.value.id in loggers) and c.func.attr in ('info', 'debug', 'error', 'warning', 'critical') \
+                and not c.keywords:
             for a in c.args:
                 for x in ast.walk(a):
                     if isinstance(x, ast.Call):
                         raise Unsupported(f'logging argument with a call at line {c.lineno}')
             return True
         return False
+
+    def module_loggers(s):
+        """module-level names of the current module bound exactly once, to logging.getLogger(...): calls of their logging methods are
+        dropped like calls of logging.* itself"""
+        mod = s.modules.get(s.cur['name'].split('.')[0]) if getattr(s, 'cur', None) else None
+        if mod is None:
+            return set()
+        if not hasattr(mod, '_loggers'):
+            out = set()
+            for n in mod.tree.body:
+                if isinstance(n, ast.Assign) and isinstance(n.value, ast.Call) and ast.unparse(n.value.func) == 'logging.getLogger':
+                    for t in n.targets:
+                        if isinstance(t, ast.Name) and sum(1 for x in ast.walk(mod.tree) if isinstance(x, ast.Name) and x.id == t.id and isinstance(x.ctx, ast.Store)) == 1:
+                            out.add(t.id)
+            mod._loggers = out
+        return mod._loggers
 
     def logging_args_safe(s, c, st):
         """the arguments of a dropped logging call are still EVALUATED (on a copy of the state, their values unused): an argument that
@@ -2009,6 +2045,13 @@ class VCGen:
         c, tc = s.ev(n.test, st)
         c = s.truthy(c, tc, st)
         out = []
+        cs = simplify(c)
+        # a test that is a literal constant on this path (a flag bound by an unrolled `for flag in [True, False]`): the dead branch is
+        # not explored at all -- it has no executions, hence no obligations, and it must not count as an (infeasible) path of the function
+        if is_true(cs):
+            return s.block(n.body, st)
+        if is_false(cs):
+            return s.block(n.orelse, st)
         a = st.clone(); a.pc.append(c)
         b = st; b.pc.append(Not(c))
         out += s.block(n.body, a)
